@@ -103,10 +103,12 @@ class Ctx:
         self.known_what = {}
         self.solver_fail = collections.Counter()
         self.inconclusive = collections.Counter()
+        self.inconclusive_cases = []
         self.maxdev = collections.defaultdict(float)  # monitor -> largest deviation seen while holding
         self.sites = collections.Counter()  # tracer: (function, return site) -> count
         self.case = None  # (index, spec) of the running case
         self.cases_run = 0
+        self.solver_time_limit = 30  # seconds per solver call (a hang inside cvxopt is an instance-level inconclusive)
         self.harness_errors = []  # exceptions inside monitor code itself (=> run inconclusive, never a violation)
         self._solver_types = None
         self._sample_budget = collections.Counter()
@@ -171,6 +173,8 @@ class Ctx:
 
     def note_inconclusive(self, why):
         self.inconclusive[why] += 1
+        if len(self.inconclusive_cases) < 50:
+            self.inconclusive_cases.append([why, self.case[0] if self.case else None])
 
     # ------------------------------------------------------------------ calling the library
     def solver_types(self):
@@ -188,9 +192,19 @@ class Ctx:
         """
         name = getattr(fn, "__qualname__", getattr(fn, "__name__", repr(fn)))
         monitor = monitor or ("call:" + name)
+        limit = self.solver_time_limit if solver else None
+        remaining = 0
+        t0 = time.monotonic()
+        if limit:
+            remaining = signal.alarm(0)  # pause the case watchdog, arm the per-solve one
+            signal.alarm(int(limit))
         try:
             return fn(*args, **kwargs)
         except CaseTimeout:
+            if limit and time.monotonic() - t0 >= limit - 1:
+                # the solver did not return within the per-solve budget: instance-level inconclusive
+                self.solver_fail[name + ":timeout"] += 1
+                return FAILED
             raise
         except expect as exc:  # type: ignore[misc]
             return exc
@@ -203,6 +217,11 @@ class Ctx:
             self.fail(monitor, key, {"exception": repr(exc)[:300], "args": enc(args), "kwargs": enc(kwargs), "site": site,
                                       "trace": traceback.format_exc()[-1500:]})
             return FAILED
+        finally:
+            if limit:
+                signal.alarm(0)
+                if remaining:
+                    signal.alarm(max(1, int(remaining - (time.monotonic() - t0))))
 
 
 def raise_site(exc):
